@@ -73,6 +73,7 @@ def run_history(ctx, seed):
         # look at its pools meanwhile (another host going down ...) can start a second build for the same host; both finish when the node answers
         pw.hold_init_of[0] = pw.addrs[0]
         info['stalled_initial_pool'] = True
+    run_history.last_world = pw
     with env:
         session = pw.start()
         rec = pw.rec
@@ -106,7 +107,14 @@ def run_history(ctx, seed):
                     if ps:
                         rng.choice(ps).shutdown()
                 elif shutdown_how == 'session':
-                    session.shutdown()
+                    if pw.hold_init_of[0] is not None:
+                        # Session.shutdown() waits for the initial connect tasks without a timeout, and one of them is stuck in its set-up until the
+                        # scenario lets the node answer: the application thread that shuts the session down is a thread of its own, this one goes on
+                        world.spawn(session.shutdown, name='session-shutdown')
+                        if rng.random() < 0.5:
+                            world.settle(advance=False)
+                    else:
+                        session.shutdown()
                 else:
                     # Cluster.shutdown() joins the executor: a task blocked for ever in a kept-back USE round trip (no timeout in the driver) would hang it
                     pw.hold_handshake[0] = False
@@ -616,7 +624,7 @@ def run(ctx):
     from vlib import shim
     shim.import_cluster()
     from vlib.run import Inconclusive
-    from sim.world import WorldLimit
+    from sim.world import WorldLimit, WorldHang
     import gc
     ctx.rule = ("a case is one seeded history (protocol, pool configuration, id-space size, 4-30 pool events, conviction policy, schedule); distinct "
                 "by the event-order signature of the world trace; non-trivial = at least 3 requests")
@@ -643,6 +651,21 @@ def run(ctx):
             viol, harness, sig, info, hist = run_history(ctx, seed)
         except WorldLimit:
             ctx.count("histories_over_budget")
+            continue
+        except WorldHang as e:
+            # every thread blocked without a deadline.  What the code under test does is an observation: if the scenario was still keeping an answer
+            # back it has starved the driver itself (a scenario that must not exist: counted, bounded below); with all inputs delivered it is a hang
+            # of the driver
+            pw = run_history.last_world
+            kept_back = bool(pw.held_handshakes or pw.hold_init_of[0] or pw.hold_handshake[0] or pw.open_held() or pw.fail_when_ready[0])
+            if kept_back:
+                ctx.count("histories_blocked_on_answers_the_scenario_kept_back")
+                ctx.note("seed %d: %s" % (seed, str(e)[:200]))
+                continue
+            ctx.count("histories")
+            ctx.violation('driver-blocked-forever-with-all-inputs-delivered', "every thread is blocked without a deadline although the node has answered everything it "
+                          "was asked: %s [seed %d]" % (str(e)[:300], seed), {"seed": seed, "hang": str(e), "trace_tail": [repr(x) for x in pw.world.trace[-40:]],
+                                                                            "node_history": [repr(x) for x in pw.net.events[-30:]]})
             continue
         except Exception as e:      # noqa
             raise Inconclusive("history seed %d failed in the harness: %s: %s" % (seed, type(e).__name__, e))
@@ -679,6 +702,9 @@ def run(ctx):
                            "node_history": [repr(e) for e in hist[2][-40:]], "closes": hist[3][-8:]})
         if not viol and len(ctx.samples) < 4 and info['replaced'] and info['requests'] < 12:
             ctx.sample({"info": info, "steps": [repr(e) for e in hist[0]], "closes": hist[3][-6:]})
+    if ctx.counters.get("histories_blocked_on_answers_the_scenario_kept_back", 0) > max(2, ctx.counters.get("histories", 0) // 200):
+        raise Inconclusive("the scenario starved the driver in %d histories (answers kept back while the main thread blocked without a deadline)" %
+                           ctx.counters["histories_blocked_on_answers_the_scenario_kept_back"])
     ctx.floor_distinct = 60 if ctx.quick else 1200
     ctx.floor_counters = {"histories": 60, "histories_v2_pool": 10, "invariant_evaluations_under_lock": 3000, "pool_connections_in_closure_census": 80,
                           "quiescent_connections_checked_for_conservation": 20, "direct_borrows": 30, "borrows_attempted_after_shutdown": 10,
